@@ -19,7 +19,7 @@ ASSUMPTIONS = [
 ]
 
 SEPS = [' ', '\n', '\t', '\r\n', '\r', '\n\n  ', ' -- c\n', ' --\n', ' -- "q" END ::= { x\n', ' -- café\r\n',
-        ' -- x\r', '']
+        ' -- x\r', '--c\n', '']
 RAW_SAFE = [s for s in SEPS if 'END' not in s and s != '']
 TRAIL = SEPS + [' -- no line end', '\n\n\n']
 
